@@ -198,7 +198,12 @@ func ChildMain() {
 				mask     uint64
 			}
 			sa := sigactionT{}
-			_, _, _ = syscall.RawSyscall6(syscall.SYS_RT_SIGACTION, uintptr(syscall.SIGXFSZ), uintptr(unsafe.Pointer(&sa)), 0, 8, 0, 0)
+			if req["soft"] != true {
+				_, _, _ = syscall.RawSyscall6(syscall.SYS_RT_SIGACTION, uintptr(syscall.SIGXFSZ), uintptr(unsafe.Pointer(&sa)), 0, 8, 0, 0)
+			}
+			// "soft": the signal stays ignored (the Go runtime's choice), so the write that crosses
+			// the limit is cut short and returns an error instead of killing the process: a full disk
+			// or a quota, after which the process lives on
 		}
 		fs := &storage.FileSystem{Options: storage.FileSystemOptions{Path: asStr(req["dir"])}}
 		if asStr(req["prelude"]) == "refused" {
@@ -554,6 +559,11 @@ func crashExplore(op M) any {
 		}
 		fs := &storage.FileSystem{Options: storage.FileSystemOptions{Path: dir}}
 		_ = fs.Store(by, nil)
+		if op["aged"] == true {
+			// the other identifier's entry was stored long ago
+			old := time.Now().Add(-26 * time.Hour)
+			_ = os.Chtimes(entryPath(dir, pre+"bystander"), old, old)
+		}
 		if oldDoc != nil {
 			_ = fs.Store(oldDoc, nil)
 		}
@@ -636,6 +646,19 @@ func crashExplore(op M) any {
 		observe(fmt.Sprintf("write after %d of %d bytes", k, len(enc)), !(nc && hasOld), exit)
 	}
 	delete(req, "fsize")
+	if op["soft"] == true {
+		// the same limits with the signal ignored: the write is cut short and fails, the process goes
+		// on and ends normally; whatever it reports, the entry is the old document, the new one or unreadable
+		req["soft"] = true
+		for k := 0; k < len(enc); k += step {
+			reset()
+			req["fsize"] = float64(k)
+			r, exit := runChild(req)
+			observe(fmt.Sprintf("write cut short after %d of %d bytes (the store returned %v)", k, len(enc), r), false, exit)
+		}
+		delete(req, "fsize")
+		delete(req, "soft")
+	}
 	// between the calls: on entry of chmod and of rename
 	for _, sc := range []string{"fchmodat,chmod,fchmod", "renameat,renameat2,rename"} {
 		reset()
@@ -697,6 +720,13 @@ func crashGen(g *G, tier string) []M {
 			op["nodir"] = true // first-time store into a directory that does not exist yet
 		case 0:
 			op["long"] = i > 0 // the first scenario keeps short identifiers
+			op["soft"] = i == 0
+		}
+		if i%2 == 1 {
+			op["aged"] = true
+		}
+		if i%8 == 1 {
+			op["soft"] = true // an overwrite with writes that are cut short
 		}
 		ops = append(ops, op)
 	}
@@ -704,10 +734,13 @@ func crashGen(g *G, tier string) []M {
 }
 
 var CrashStream = &Stream{
-	Name:   "crash",
-	Gen:    crashGen,
-	Exec:   ExecStore,
-	Oracle: oracleStore,
+	// scenarios of many calls (child processes, large documents): the watchdog allows for a loaded machine;
+	// a call that blocks is still reported (the children have their own, shorter limits)
+	Timeout: 240 * time.Second,
+	Name:    "crash",
+	Gen:     crashGen,
+	Exec:    ExecStore,
+	Oracle:  oracleStore,
 	Canon: func(v any) any {
 		n := Normalize(v)
 		if m, ok := n.(M); ok && m["outcomes"] != nil {
